@@ -13,3 +13,27 @@ Model/Sys.vos Model/Sys.vok Model/Sys.required_vos: Model/Sys.v Model/Coro.vos
 Model/Replay.vo Model/Replay.glob Model/Replay.v.beautified Model/Replay.required_vo: Model/Replay.v Model/Sys.vo
 Model/Replay.vio: Model/Replay.v Model/Sys.vio
 Model/Replay.vos Model/Replay.vok Model/Replay.required_vos: Model/Replay.v Model/Sys.vos
+Model/Mon.vo Model/Mon.glob Model/Mon.v.beautified Model/Mon.required_vo: Model/Mon.v Model/Sys.vo
+Model/Mon.vio: Model/Mon.v Model/Sys.vio
+Model/Mon.vos Model/Mon.vok Model/Mon.required_vos: Model/Mon.v Model/Sys.vos
+Model/MonC09.vo Model/MonC09.glob Model/MonC09.v.beautified Model/MonC09.required_vo: Model/MonC09.v Model/Mon.vo
+Model/MonC09.vio: Model/MonC09.v Model/Mon.vio
+Model/MonC09.vos Model/MonC09.vok Model/MonC09.required_vos: Model/MonC09.v Model/Mon.vos
+Proofs/Framework.vo Proofs/Framework.glob Proofs/Framework.v.beautified Proofs/Framework.required_vo: Proofs/Framework.v Model/Mon.vo
+Proofs/Framework.vio: Proofs/Framework.v Model/Mon.vio
+Proofs/Framework.vos Proofs/Framework.vok Proofs/Framework.required_vos: Proofs/Framework.v Model/Mon.vos
+Proofs/StoreLocks.vo Proofs/StoreLocks.glob Proofs/StoreLocks.v.beautified Proofs/StoreLocks.required_vo: Proofs/StoreLocks.v Model/Mon.vo Model/MonC09.vo
+Proofs/StoreLocks.vio: Proofs/StoreLocks.v Model/Mon.vio Model/MonC09.vio
+Proofs/StoreLocks.vos Proofs/StoreLocks.vok Proofs/StoreLocks.required_vos: Proofs/StoreLocks.v Model/Mon.vos Model/MonC09.vos
+Proofs/Discipline.vo Proofs/Discipline.glob Proofs/Discipline.v.beautified Proofs/Discipline.required_vo: Proofs/Discipline.v Model/Mon.vo
+Proofs/Discipline.vio: Proofs/Discipline.v Model/Mon.vio
+Proofs/Discipline.vos Proofs/Discipline.vok Proofs/Discipline.required_vos: Proofs/Discipline.v Model/Mon.vos
+Proofs/SysInv.vo Proofs/SysInv.glob Proofs/SysInv.v.beautified Proofs/SysInv.required_vo: Proofs/SysInv.v Model/Mon.vo Proofs/Discipline.vo
+Proofs/SysInv.vio: Proofs/SysInv.v Model/Mon.vio Proofs/Discipline.vio
+Proofs/SysInv.vos Proofs/SysInv.vok Proofs/SysInv.required_vos: Proofs/SysInv.v Model/Mon.vos Proofs/Discipline.vos
+Proofs/PC09.vo Proofs/PC09.glob Proofs/PC09.v.beautified Proofs/PC09.required_vo: Proofs/PC09.v Model/Mon.vo Model/MonC09.vo Proofs/Framework.vo Proofs/StoreLocks.vo Proofs/Discipline.vo Proofs/SysInv.vo
+Proofs/PC09.vio: Proofs/PC09.v Model/Mon.vio Model/MonC09.vio Proofs/Framework.vio Proofs/StoreLocks.vio Proofs/Discipline.vio Proofs/SysInv.vio
+Proofs/PC09.vos Proofs/PC09.vok Proofs/PC09.required_vos: Proofs/PC09.v Model/Mon.vos Model/MonC09.vos Proofs/Framework.vos Proofs/StoreLocks.vos Proofs/Discipline.vos Proofs/SysInv.vos
+Props/C09.vo Props/C09.glob Props/C09.v.beautified Props/C09.required_vo: Props/C09.v Model/Mon.vo Model/MonC09.vo Proofs/StoreLocks.vo Proofs/PC09.vo
+Props/C09.vio: Props/C09.v Model/Mon.vio Model/MonC09.vio Proofs/StoreLocks.vio Proofs/PC09.vio
+Props/C09.vos Props/C09.vok Props/C09.required_vos: Props/C09.v Model/Mon.vos Model/MonC09.vos Proofs/StoreLocks.vos Proofs/PC09.vos
